@@ -1136,7 +1136,7 @@ class Engine:
                 return f(*pos, **kw)
             except TypeError as ex:
                 # a library model called with a signature it does not cover (extra positional / keyword arguments): not modelled
-                if getattr(f, "__module__", "").startswith("pyvc") and ("positional argument" in str(ex) or "unexpected keyword" in str(ex)):
+                if getattr(f, "__module__", "").startswith("pyvc") and any(t in str(ex) for t in ("positional argument", "unexpected keyword", "bad operand type", "unsupported operand")):
                     raise Unsupported("library model %s: %s" % (getattr(f, "__name__", f), ex))
                 raise
         raise Unsupported("call of %r" % (f,))
